@@ -464,6 +464,15 @@ def rule_V10(ctx, rule: str = "V10") -> None:
             if not built:
                 no_default = no_default or p
     name = "__eq__:by-field-values"
+    # what two values mean to each other does not depend on how the field is declared: a NaN is tolerated because both values
+    # are NaN, wherever they sit (a DoubleValue / FloatValue wrapper field has proto type `message`, a NaN inside it is still a NaN)
+    by_decl = next((k for p in paths for k in p.valuation if any(t[0] == "a" and t[2] in ("proto_type", "wraps", "map_types", "number") for t in _walk(k))), None)
+    if by_decl is not None:
+        ctx.refuted(rule, "__eq__:independent-of-declaration", show(by_decl)[:80], mod.loc(fn), f"__eq__ decides on `{show(by_decl)}`: whether two values are equal is made to depend on the declared type of the "
+                    "field - the tolerance for a NaN pair then misses the places where a float lives under another proto type (google.protobuf.DoubleValue / FloatValue wrapper fields), and "
+                    "parse(bytes(m)) != m for such a message", "M(wd=float('nan')) with wd: Optional[float] = message_field(1, wraps=TYPE_DOUBLE)")
+    else:
+        ctx.proved(rule, "__eq__:independent-of-declaration", mod.loc(fn), "no decision reads the field's metadata")
     if early:
         ctx.refuted(rule, name, "equal-without-comparing", mod.loc(fn), f"__eq__ returns True before any field was compared, on {val_text(early.valuation)}: two messages are declared equal on "
                     "something other than their fields (a sub-message filled in place has a clear presence flag and still differs from a fresh default: dump would skip it)",
